@@ -1,10 +1,18 @@
 #!/bin/sh
-# Run once after a fresh restore, offline: compile the SHA-256 override and pre-build the harness.
+# Run once after a fresh restore, offline: compile the SHA-256 override and pre-build the harness
+# binaries of the registered engines (each check rebuilds what it needs anyway; this only warms the caches).
 set -e
 cd "$(dirname "$0")"
 export CARGO_NET_OFFLINE=true
 mkdir -p work evidence replays
 (cd spec && javac -cp /opt/veriftools/tla/tla2tools.jar Prim.java)
 [ -f harness/Cargo.lock ] || cp /repo/Cargo.lock harness/Cargo.lock
-(cd harness && cargo build --release --offline --bins) || { cp /repo/Cargo.lock harness/Cargo.lock; (cd harness && cargo build --release --offline --bins); }
+BINS="$(cat setup.bins)"
+ARGS=""
+for b in $BINS; do ARGS="$ARGS --bin $b"; done
+(cd harness && cargo build --release --offline $ARGS) || { cp /repo/Cargo.lock harness/Cargo.lock; (cd harness && cargo build --release --offline $ARGS); }
+# the two extra build variants of C05
+(cd harness && CARGO_TARGET_DIR=target-nofast cargo build --release --offline --features nofast --bin run --bin ops)
+(cd harness && CARGO_TARGET_DIR=target-diag cargo build --release --offline --features diag --bin run --bin ops)
+if [ -x pyharness/build.sh ]; then pyharness/build.sh || echo "python wheel build failed (the py checks will retry)"; fi
 echo setup done
